@@ -1,7 +1,7 @@
 """C08 — potentials are covariant under translations and supercell repetition.
 
 Spaces:
- T  whole-pixel translations: atoms A0..A3 x projection {infinite, finite} x parametrization {lobato, kirkland} x ALL pairs
+ T  whole-pixel translations: atoms A0..A3 x projection {infinite, finite} x parametrization {lobato, kirkland, lobato with per-element thermal sigmas} x ALL pairs
     (sx, sy) from {0, 1, -3, N/2, N} per axis: V(atoms shifted by whole pixels) == np.roll(V) for every slice.
  S  supercells: repetitions {(2,1,1), (1,2,1), (2,2,1), (1,1,2), (2,1,2)} x both projections:
     Potential(atoms*rep, gpts*rep) == PotentialArray.tile(rep) == CrystalPotential(unit, rep), slice by slice.
@@ -34,6 +34,8 @@ def check(ctx):
         T.append({"space": "T", "atoms": a, "proj": proj, "par": par, "pbc": True})
         if par == "lobato":
             T.append({"space": "T", "atoms": a, "proj": proj, "par": par, "pbc": False})
+            if a in ("A1", "A2"):  # thermal sigmas set on the parametrization (blurred per element; must stay periodic)
+                T.append({"space": "T", "atoms": a, "proj": proj, "par": "lobato-sigmas", "pbc": True})
     S = [{"space": "S", "atoms": a, "proj": proj, "rep": list(rep)} for a, proj, rep in itertools.product(
         ("A1", "A2") if q else ("A0", "A1", "A2", "A3"), ("infinite", "finite"), ((2, 1, 1), (1, 2, 1), (2, 2, 1), (1, 1, 2), (2, 1, 2)))]
     # the same translation and supercell spaces on grids whose x and y pixel sizes differ
@@ -57,6 +59,10 @@ def gpts_for(a):
 def build(atoms, gpts, proj, par="lobato", st=2.0):
     import abtem
 
+    if par == "lobato-sigmas":
+        from abtem.parametrizations import LobatoParametrization
+
+        par = LobatoParametrization(sigmas={s_: 0.12 + 0.05 * i for i, s_ in enumerate(sorted(set(atoms.get_chemical_symbols())))})
     return abtem.Potential(atoms, gpts=gpts, projection=proj, parametrization=par, slice_thickness=st).build(lazy=False)
 
 
